@@ -589,10 +589,10 @@ package core
 //@ func (*IndexedState).rem
 //@   ensures[C08.ix_rem_removes_the_id]     result1 == nil ==> !has(s.IdToFact, id)
 //@   ensures[C08.ix_rem_only_removes]       forall(k, string, has(s.IdToFact, k) ==> old(has(s.IdToFact, k)))
-//@   ensures[C06.ix_rem_reaches_storage]    old(has(s.IdToFact, id)) && result1 == nil ==> stRems > old(stRems)
+//@   ensures[C06+C08.ix_rem_reaches_storage]    old(has(s.IdToFact, id)) && result1 == nil ==> stRems > old(stRems)
 //@   ensures[C06.ix_rem_storage_monotone]   stRems >= old(stRems)
 //@   ensures[C06.ix_rem_error_is_reported]  remErr ==> result1 != nil
-//@   assert[C06.ix_rem_removes_own_key]     at "s.Store.Remove(ctx, s.Name, []byte(id))": true
+//@   assert[C06+C08.ix_rem_removes_own_key]     at "s.Store.Remove(ctx, s.Name, []byte(id))": true
 //@   ghost-ensures remErr == (old(remErr) || result1 != nil)
 //@   also-modifies remErr, stRems, stErr
 //@ func (*IndexedState).deleteDependencies
@@ -614,7 +614,7 @@ package core
 //@ func (*LinearState).rem
 //@   ensures[C08.lin_rem_removes_the_id]    result1 == nil ==> !has(s.Facts, id)
 //@   ensures[C08.lin_rem_only_removes]      forall(k, string, has(s.Facts, k) ==> old(has(s.Facts, k)))
-//@   ensures[C06.lin_rem_reaches_storage]   result1 == nil ==> stRems > old(stRems)
+//@   ensures[C06+C08.lin_rem_reaches_storage]   result1 == nil ==> stRems > old(stRems)
 //@   ensures[C06.lin_rem_storage_monotone]  stRems >= old(stRems)
 //@   assert[C06.lin_rem_store_first]        at "s.deleteDependencies(ctx, id)": stRems > old(stRems)
 //@   ghost-ensures remErr == (old(remErr) || result1 != nil)
@@ -653,3 +653,15 @@ package core
 //@   loop 1: invariant[C06.ix_remhooks_loop] stErr == old(stErr)
 //@ func (*IndexedState).Load
 //@   loop 1: invariant[C06.ix_load_loop] !stErr
+
+// The cascade removes exactly the results of the (match-checked) dependents search; an expired fact seen by get is purged through expire.
+//@ func (*IndexedState).deleteDependencies
+//@   assert[C08.ix_cascade_removes_search_matches] at "s.search(ctx, Map{KW_DeleteWith: []string{id}})": true
+//@   assert[C08.ix_cascade_removes_each_match]     at "s.rem(ctx, sr.Id)": true
+//@ func (*LinearState).deleteDependencies
+//@   assert[C08.lin_cascade_removes_search_matches] at "s.search(ctx, pattern, false)": true
+//@   assert[C08.lin_cascade_removes_each_match]     at "s.rem(ctx, sr.Id, false)": id != sr.Id
+//@ func (*IndexedState).get
+//@   assert[C07+C08.ix_get_purges_through_expire] at "s.expire(ctx, id, fact, 0)": true
+//@ func (*LinearState).get
+//@   assert[C07+C08.lin_get_purges_through_expire] at "s.expire(ctx, id, rf.M, 0)": true
